@@ -31,6 +31,11 @@ fn main() {
             let tier = args[3].as_str();
             match args[2].as_str() {
                 "C01" => c01(tier),
+                "C02" => c02(tier),
+                "C07" => c07(tier),
+                "C08" => c08(tier),
+                "C14" => c14(tier),
+                "C20" => c20(tier),
                 _ => usage(),
             }
         }
@@ -56,4 +61,48 @@ fn c01(tier: &str) -> i32 {
 
 pub fn replay_other(_prop: &str, _first: &serde_json::Value) -> i32 {
     0
+}
+
+fn jobs_from(v: Vec<(scenario::Scenario, bool)>) -> Vec<E1Job> {
+    v.into_iter().map(|(s, conv)| { let j = E1Job::new(s); if conv { j } else { j.no_converge() } }).collect()
+}
+
+fn c07(tier: &str) -> i32 {
+    let mut rep = Report::new("C07", tier, "model_checking");
+    rep.rule = "every edge deliver(e) of every explored graph where e has already taken effect in the source state (stored message, applied/superseded commit, queued proposal, invalidated message, own echo already confirmed); distinct = distinct (handled-kind, event class, result)".into();
+    let jobs = jobs_from(families::c01_quick());
+    run_e1(jobs, &|cx, rep, _| props_e1::check_c07(cx, rep), &mut rep);
+    rep.finish()
+}
+
+fn c08(tier: &str) -> i32 {
+    let mut rep = Report::new("C08", tier, "model_checking");
+    rep.rule = "state invariant on every state of every explored graph: stored record == MLS extension/epoch, relays == extension relays; distinct = distinct (record state, extension, epoch, pending flag)".into();
+    let jobs = jobs_from(families::c01_quick());
+    run_e1(jobs, &|cx, rep, _| props_e1::check_c08(cx, rep), &mut rep);
+    rep.finish()
+}
+
+fn c14(tier: &str) -> i32 {
+    let mut rep = Report::new("C14", tier, "model_checking");
+    rep.rule = "every tracing record (TRACE and up), every Err (Display+Debug) and every result Debug on every transition of the explored graphs is scanned for every sensitive value of the world in lower/upper hex and byte-list form".into();
+    let jobs = jobs_from(families::c01_quick());
+    run_e1(jobs, &|cx, rep, _| props_e1::check_c14(cx, rep), &mut rep);
+    rep.finish()
+}
+
+fn c20(tier: &str) -> i32 {
+    let mut rep = Report::new("C20", tier, "model_checking");
+    rep.rule = "state invariant on every state: stored snapshots <= retention, manager queue == stored names, no snapshot at/above current epoch, queue epochs increasing; distinct = distinct (stored count, queue length, epoch)".into();
+    let jobs = jobs_from(families::c01_quick());
+    run_e1(jobs, &|cx, rep, _| props_e1::check_c20(cx, rep), &mut rep);
+    rep.finish()
+}
+
+fn c02(tier: &str) -> i32 {
+    let mut rep = Report::new("C02", tier, "model_checking");
+    rep.rule = "message scenarios; per edge: returned message == what the sender created; per state: the quiescent state it settles into (if it is the reference state) stores every winning-branch message exactly once, intact and processed (causal regime), and no losing-branch message valid; distinct = distinct (message class, copies, intact, state, convergence class)".into();
+    let jobs = jobs_from(families::c02_quick());
+    run_e1(jobs, &|cx, rep, _| props_e1::check_c02(cx, rep), &mut rep);
+    rep.finish()
 }
